@@ -24,6 +24,22 @@ streams, feeds and subscribers, unless a hypothesis is written out.
 * `removed_feed_stops`, `deleted_rule_stops`, `delete_all_stops`, `unregistered_gets_nothing`
                                   corollaries: the state right after the change already forwards nothing
 * `old_code_panics_*`             the three historical sequences panic in the model of the code before e26c2fb
+
+Stalled peers (`Agg.Full`, `Agg.fstep`: subscribers that stop draining their `Send` channel, forwarders
+blocked in `c.Send <- msg`, tear-down of blocked forwarders), for EVERY history of table ops, stalls and drains:
+
+* `stalls_never_crash_or_block_hub`  the hub loop neither panics nor blocks, and its tables are exactly those of
+                                  the table ops alone (a peer that does not read cannot influence them)
+* `stalled_iff_history`           the stalled set is what the history says (last stall/drain op was a stall)
+* `undelivered_were_owed`         whatever sits in a buffer or with a blocked forwarder (also a stopped one)
+                                  belongs to a subscriber that is stalled now and is the message of an earlier
+                                  broadcast that owed it to that subscriber at that time ("in flight" only)
+* `drained_were_owed`             so a subscriber that drains again gets only such messages, and is clean after
+* `draining_subscriber_unaffected`, `draining_stream_subscriber_follows_rule`
+                                  a subscriber that drains (never stalled, or drained again) is served as if
+                                  nobody had stalled: exactly the latest rule's multiplicity (under `NoReRegister`)
+* `broadcast_rows`                a broadcast delivers at once only to draining subscribers; a stalled one gets
+                                  nothing until it drains
 -/
 
 namespace Agg
@@ -690,6 +706,350 @@ theorem unregistered_gets_nothing (ops : List Op) (u : Sub) (f sender : String) 
   refine ⟨s, h, ?_⟩
   rw [he, expected_def, registered_snoc]
   simp [regStep]
+
+/-! ### stalled subscribers -/
+
+/-- on the tables an op of the full model is `step true` (a panic of the one is a panic of the other);
+    `stall`/`unstall` leave the tables alone and always succeed -/
+theorem fstepS_core (f : Full) (o : Op) :
+    (step true f.core o = .panic ∧ fstepS f (.core o) = .panic) ∨
+    ∃ f', fstepS f (.core o) = .ok f' ∧ step true f.core o = .ok f'.core := by
+  cases h : step true f.core o with
+  | panic => exact Or.inl ⟨rfl, by simp only [fstepS, fstep, h]⟩
+  | ok c => exact Or.inr ⟨(tableStep f c o).1, by simp only [fstepS, fstep, h], by rw [tableStep_core]⟩
+
+theorem fstepS_stall (f : Full) (u : Sub) (k : Nat) : fstepS f (.stall u k) = .ok (stallOp f u k) := rfl
+
+theorem fstepS_unstall (f : Full) (u : Sub) : fstepS f (.unstall u) = .ok (unstallOp f u) := rfl
+
+theorem ffoldl_panic (ops : List FOp) :
+    ops.foldl (fun o op => o.bind (fun f => fstepS f op)) (Outcome.panic : Outcome Full) = .panic := by
+  induction ops with
+  | nil => rfl
+  | cons op ops ih => simpa [List.foldl, Outcome.bind] using ih
+
+theorem frunFrom_cons (f : Full) (op : FOp) (ops : List FOp) :
+    frunFrom f (op :: ops) = (fstepS f op).bind (fun f' => frunFrom f' ops) := by
+  unfold frunFrom
+  simp only [List.foldl_cons, Outcome.bind]
+  cases fstepS f op with
+  | panic => exact ffoldl_panic ops
+  | ok f' => rfl
+
+theorem frunFrom_snoc (f : Full) (ops : List FOp) (op : FOp) :
+    frunFrom f (ops ++ [op]) = (frunFrom f ops).bind (fun f' => fstepS f' op) := by
+  unfold frunFrom
+  rw [List.foldl_append]; rfl
+
+/-- the tables of the full model are those of the table ops alone -/
+theorem frunFrom_core (ops : List FOp) : ∀ f : Full,
+    (runFrom true f.core (coreOps ops) = .panic ∧ frunFrom f ops = .panic) ∨
+    ∃ f', frunFrom f ops = .ok f' ∧ runFrom true f.core (coreOps ops) = .ok f'.core := by
+  induction ops with
+  | nil => intro f; exact Or.inr ⟨f, rfl, rfl⟩
+  | cons op ops ih =>
+    intro f
+    rw [frunFrom_cons]
+    cases op with
+    | core o =>
+      simp only [coreOps]
+      rw [runFrom_cons]
+      rcases fstepS_core f o with ⟨h1, h2⟩ | ⟨f', h1, h2⟩
+      · rw [h1, h2]; exact Or.inl ⟨rfl, rfl⟩
+      · rw [h1, h2]; exact ih f'
+    | stall u k =>
+      simp only [coreOps, fstepS_stall, Outcome.bind]
+      have := ih (stallOp f u k)
+      rwa [stallOp_core] at this
+    | unstall u =>
+      simp only [coreOps, fstepS_unstall, Outcome.bind]
+      exact ih (unstallOp f u)
+
+/-- **C15 (iii) with stalled peers**: for every history of table ops, stalls and drains the hub loop
+    neither panics nor blocks (the model has no other outcome than a next state), and its tables are
+    exactly those of the table ops alone — a peer that does not read cannot influence rules, registrations or
+    sub-subscriptions. -/
+theorem stalls_never_crash_or_block_hub (ops : List FOp) :
+    ∃ F, frun ops = .ok F ∧ run (coreOps ops) = .ok F.core := by
+  rcases frunFrom_core ops {} with ⟨h1, _⟩ | ⟨F, h1, h2⟩
+  · obtain ⟨s, hs⟩ := agg_never_panics (coreOps ops)
+    unfold run at hs
+    rw [hs] at h1; cases h1
+  · exact ⟨F, h1, h2⟩
+
+/-! #### who is stalled -/
+
+/-- one op changes "is stalled" exactly as the history says -/
+theorem fstepS_stalled (f f' : Full) (op : FOp) (u : Sub) (h : fstepS f op = .ok f') :
+    (roomOf f'.room u).isSome = stallStep u (roomOf f.room u).isSome op := by
+  cases op with
+  | core o =>
+    simp only [fstepS, fstep] at h
+    cases hs : step true f.core o with
+    | panic => simp [hs] at h
+    | ok c =>
+      simp only [hs, Outcome.ok.injEq] at h
+      subst h
+      simpa [stallStep] using tableStep_room f c o u
+  | stall v k =>
+    rw [fstepS_stall, Outcome.ok.injEq] at h
+    subst h
+    unfold stallOp stallStep
+    by_cases hv : v = u
+    · subst hv
+      cases hr : roomOf f.room v with
+      | some r => simp [hr]
+      | none => simp [roomOf]
+    · cases hr : roomOf f.room v with
+      | some r => simp [hv]
+      | none => simp [roomOf, hv]
+  | unstall v =>
+    rw [fstepS_unstall, Outcome.ok.injEq] at h
+    subst h
+    unfold unstallOp stallStep
+    by_cases hv : v = u
+    · subst hv; rw [roomOf_filter_self]; simp
+    · have : u ≠ v := fun e => hv e.symm
+      rw [roomOf_filter_ne _ _ _ this]; simp [hv]
+
+theorem frunFrom_stalled (ops : List FOp) (u : Sub) : ∀ f F : Full, frunFrom f ops = .ok F →
+    (roomOf F.room u).isSome = ops.foldl (stallStep u) (roomOf f.room u).isSome := by
+  induction ops with
+  | nil => intro f F h; cases h; rfl
+  | cons op ops ih =>
+    intro f F h
+    rw [frunFrom_cons] at h
+    cases h1 : fstepS f op with
+    | panic => simp [h1, Outcome.bind] at h
+    | ok f1 =>
+      simp only [h1, Outcome.bind] at h
+      rw [List.foldl_cons, ← fstepS_stalled f f1 op u h1]
+      exact ih f1 F h
+
+/-- a subscriber is in the stalled set exactly when its last stall/drain op was a stall -/
+theorem stalled_iff_history (ops : List FOp) (F : Full) (h : frun ops = .ok F) (u : Sub) :
+    (roomOf F.room u).isSome = stalledNow ops u := by
+  have := frunFrom_stalled ops u {} F h
+  simpa [roomOf, stalledNow] using this
+
+/-! #### undelivered messages -/
+
+/-- where the undelivered messages after one op come from: they were undelivered before (and their
+    subscriber did not just drain), or this op is a broadcast that owed them to a stalled subscriber -/
+theorem fstepS_items (f f' : Full) (op : FOp) (h : fstepS f op = .ok f') (i : Item) (hi : i ∈ f'.items) :
+    (op ≠ .unstall i.to ∧ ∃ j ∈ f.items, j.to = i.to ∧ j.msg = i.msg) ∨
+    (∃ t sn, op = .core (.broadcast t sn) ∧ (roomOf f.room i.to).isSome = true ∧ i.msg = ⟨t, f.seq⟩ ∧
+      0 < incoming f i.to t sn) := by
+  cases op with
+  | core o =>
+    simp only [fstepS, fstep] at h
+    cases hs : step true f.core o with
+    | panic => simp [hs] at h
+    | ok c =>
+      simp only [hs, Outcome.ok.injEq] at h
+      subst h
+      cases o with
+      | broadcast t sn =>
+        have hc : c = f.core := by simp only [step, Outcome.ok.injEq] at hs; exact hs.symm
+        subst hc
+        simp only [tableStep, Op.bcOf, bcStep, retag, List.mem_append, List.mem_flatMap] at hi
+        rcases hi with hi | ⟨p, hp, hi⟩
+        · exact Or.inl ⟨by simp, i, hi, rfl, rfl⟩
+        · obtain ⟨a, b, c⟩ := bcStalled_mem _ _ _ _ _ _ hi
+          refine Or.inr ⟨t, sn, rfl, ?_, b, ?_⟩
+          · rw [a]; exact roomOf_mem f.room p.1 p.2 hp
+          · rw [a]; exact c
+      | register u =>
+        simp only [tableStep, Op.bcOf] at hi
+        exact Or.inl ⟨by simp, retag_mem f.core f.items _ i hi⟩
+      | unregister u =>
+        simp only [tableStep, Op.bcOf] at hi
+        exact Or.inl ⟨by simp, retag_mem f.core f.items _ i hi⟩
+      | add st fl =>
+        simp only [tableStep, Op.bcOf] at hi
+        exact Or.inl ⟨by simp, retag_mem f.core f.items _ i hi⟩
+      | delete st =>
+        simp only [tableStep, Op.bcOf] at hi
+        exact Or.inl ⟨by simp, retag_mem f.core f.items _ i hi⟩
+  | stall v k =>
+    rw [fstepS_stall, Outcome.ok.injEq] at h
+    subst h
+    have : (stallOp f v k).items = f.items := by unfold stallOp; cases roomOf f.room v <;> rfl
+    rw [this] at hi
+    exact Or.inl ⟨by simp, i, hi, rfl, rfl⟩
+  | unstall v =>
+    rw [fstepS_unstall, Outcome.ok.injEq] at h
+    subst h
+    simp only [unstallOp, List.mem_filter, decide_eq_true_eq] at hi
+    refine Or.inl ⟨?_, i, hi.1, rfl, rfl⟩
+    intro e
+    cases e
+    exact hi.2 rfl
+
+/-- every undelivered message belongs to a subscriber that is stalled -/
+def Parked (F : Full) : Prop := ∀ i ∈ F.items, (roomOf F.room i.to).isSome = true
+
+theorem fstepS_parked (f f' : Full) (op : FOp) (h : fstepS f op = .ok f') (hp : Parked f) : Parked f' := by
+  intro i hi
+  rw [fstepS_stalled f f' op i.to h]
+  rcases fstepS_items f f' op h i hi with ⟨hne, j, hj, hto, _⟩ | ⟨t, sn, rfl, hr, _⟩
+  · have := hp j hj
+    rw [hto] at this
+    rw [this]
+    cases op with
+    | core o => rfl
+    | stall v k => simp only [stallStep]; split <;> rfl
+    | unstall v =>
+      simp only [stallStep]
+      split
+      · rename_i e; subst e; exact absurd rfl hne
+      · rfl
+  · rw [hr]; rfl
+
+/-- message `m` was owed to `u` by a broadcast of the history `pre`, made while `u` was stalled:
+    `pre = p ++ broadcast t sn :: post`, `m` is that broadcast's message, and in the state after `p`
+    the subscriber `u` is stalled and at least one copy is on its way to `u` -/
+def Owed (pre : List FOp) (u : Sub) (m : Msg) : Prop :=
+  ∃ p post t sn Fp, pre = p ++ FOp.core (.broadcast t sn) :: post ∧ frun p = .ok Fp ∧ m = ⟨t, Fp.seq⟩ ∧
+    (roomOf Fp.room u).isSome = true ∧ 0 < incoming Fp u t sn
+
+theorem Owed.snoc {pre : List FOp} {u : Sub} {m : Msg} (h : Owed pre u m) (op : FOp) :
+    Owed (pre ++ [op]) u m := by
+  obtain ⟨p, post, t, sn, Fp, e, h1, h2, h3, h4⟩ := h
+  exact ⟨p, post ++ [op], t, sn, Fp, by rw [e]; simp, h1, h2, h3, h4⟩
+
+theorem frunFrom_inv (ops : List FOp) : ∀ (pre : List FOp) (F0 F : Full), frun pre = .ok F0 →
+    frunFrom F0 ops = .ok F → Parked F0 → (∀ i ∈ F0.items, Owed pre i.to i.msg) →
+    Parked F ∧ ∀ i ∈ F.items, Owed (pre ++ ops) i.to i.msg := by
+  induction ops with
+  | nil =>
+    intro pre F0 F _ h hp ho
+    cases h
+    exact ⟨hp, by simpa using ho⟩
+  | cons op ops ih =>
+    intro pre F0 F hpre h hp ho
+    rw [frunFrom_cons] at h
+    cases h1 : fstepS F0 op with
+    | panic => simp [h1, Outcome.bind] at h
+    | ok f1 =>
+      simp only [h1, Outcome.bind] at h
+      have hpre1 : frun (pre ++ [op]) = .ok f1 := by
+        unfold frun at hpre ⊢
+        rw [frunFrom_snoc, hpre]; exact h1
+      have ho1 : ∀ i ∈ f1.items, Owed (pre ++ [op]) i.to i.msg := by
+        intro i hi
+        rcases fstepS_items F0 f1 op h1 i hi with ⟨_, j, hj, hto, hmsg⟩ | ⟨t, sn, rfl, hr, hm, hin⟩
+        · have := (ho j hj).snoc op
+          rwa [hto, hmsg] at this
+        · exact ⟨pre, [], t, sn, F0, rfl, hpre, hm, hr, hin⟩
+      have := ih (pre ++ [op]) f1 F hpre1 h (fstepS_parked F0 f1 op h1 hp) ho1
+      simpa [List.append_assoc] using this
+
+/-- **undelivered messages are in-flight messages**: in every reachable state, whatever sits in a
+    subscriber's buffer or with a forwarder blocked on it (also a forwarder that was stopped since: the
+    subscriber left, its rule was replaced or deleted) (a) belongs to a subscriber that is stalled now and
+    (b) is the message of an earlier broadcast that owed it to that subscriber when it was made. Nothing
+    else can reach a subscriber when it drains again. -/
+theorem undelivered_were_owed (ops : List FOp) (F : Full) (h : frun ops = .ok F) :
+    ∀ i ∈ F.items, stalledNow ops i.to = true ∧ Owed ops i.to i.msg := by
+  have := frunFrom_inv ops [] {} F rfl h (by intro i hi; cases hi) (by intro i hi; cases hi)
+  intro i hi
+  refine ⟨?_, by simpa using this.2 i hi⟩
+  rw [← stalled_iff_history ops F h]
+  exact this.1 i hi
+
+theorem drainRows_mem (items : List Item) (u : Sub) (r : Row) (h : r ∈ drainRows items u) :
+    r.to = u ∧ ∃ i ∈ items, i.to = u ∧ i.msg = r.msg := by
+  unfold drainRows at h
+  obtain ⟨i, hi, rfl⟩ := List.mem_map.1 h
+  simp only [List.mem_filter, decide_eq_true_eq] at hi
+  exact ⟨rfl, i, hi.1, hi.2, rfl⟩
+
+/-- what a subscriber gets when it drains again: only messages owed to it by earlier broadcasts -/
+theorem drained_were_owed (ops : List FOp) (F : Full) (h : frun ops = .ok F) (u : Sub) :
+    ∃ F' rows, fstep F (.unstall u) = .ok (F', rows) ∧ (roomOf F'.room u) = none ∧
+      (∀ i ∈ F'.items, i.to ≠ u) ∧ ∀ r ∈ rows, r.to = u ∧ Owed ops u r.msg := by
+  refine ⟨_, _, rfl, roomOf_filter_self _ _, ?_, ?_⟩
+  · intro i hi
+    simp only [unstallOp, List.mem_filter, decide_eq_true_eq] at hi
+    exact hi.2
+  · intro r hr
+    obtain ⟨h1, i, hi, hto, hm⟩ := drainRows_mem _ _ _ hr
+    have := (undelivered_were_owed ops F h i hi).2
+    rw [hto, hm] at this
+    exact ⟨h1, this⟩
+
+theorem heldCount_zero (F : Full) (hp : Parked F) (u : Sub) (hu : roomOf F.room u = none)
+    (k : Hold) (t : String) : heldCount F.items u k t = 0 := by
+  unfold heldCount
+  rw [List.countP_eq_zero]
+  intro i hi
+  simp only [decide_eq_true_eq, not_and]
+  intro hto
+  have := hp i hi
+  rw [hto, hu] at this
+  cases this
+
+/-- **a subscriber that drains is served as if nobody stalled**: in every reachable state the number of
+    copies of a broadcast that reach a subscriber which is not stalled is `received` of the tables alone
+    (no forwarder of a draining subscriber is ever blocked), whoever else is stalled, however long. -/
+theorem draining_subscriber_unaffected (ops : List FOp) (F : Full) (h : frun ops = .ok F) (u : Sub)
+    (hu : stalledNow ops u = false) (t sn : String) :
+    incoming F u t sn = received F.core u t sn := by
+  have hp : Parked F := (frunFrom_inv ops [] {} F rfl h (by intro i hi; cases hi) (by intro i hi; cases hi)).1
+  have hr : roomOf F.room u = none := by
+    have := stalled_iff_history ops F h u
+    rw [hu] at this
+    cases hx : roomOf F.room u with
+    | none => rfl
+    | some r => rw [hx] at this; cases this
+  unfold incoming freeTable freeOrphan received
+  rw [heldCount_zero F hp u hr, heldCount_zero F hp u hr]
+  rfl
+
+/-- **C15 (i) next to / after stalls**: under the usage discipline a stream subscriber that drains (it never
+    stalled, or drained again) receives of a message on feed `f` exactly the multiplicity of `f` in the
+    latest rule of its stream if it is registered and not the sender, else nothing — in every history with
+    any stalls and drains of any subscribers in between. -/
+theorem draining_stream_subscriber_follows_rule (ops : List FOp) (hd : NoReRegister (coreOps ops))
+    (u : Sub) (hu : isStream u.topic = true) (hs : stalledNow ops u = false) (f sender : String) :
+    ∃ F, frun ops = .ok F ∧ incoming F u f sender = expected (coreOps ops) u f sender := by
+  obtain ⟨F, h, hc⟩ := stalls_never_crash_or_block_hub ops
+  obtain ⟨s, h2, he⟩ := stream_delivery_follows_rule (coreOps ops) hd u hu f sender
+  rw [hc] at h2; cases h2
+  exact ⟨F, h, by rw [draining_subscriber_unaffected ops F h u hs, he]⟩
+
+/-- a broadcast delivers at once only to subscribers that drain, each its `incoming` copies of the new
+    message; a stalled subscriber gets nothing until it drains -/
+theorem broadcast_rows (F : Full) (t sn : String) :
+    ∃ F' rows, fstep F (.core (.broadcast t sn)) = .ok (F', rows) ∧ F'.seq = F.seq + 1 ∧
+      ∀ r ∈ rows, roomOf F.room r.to = none ∧ r.msg = ⟨t, F.seq⟩ ∧ r.n = incoming F r.to t sn := by
+  refine ⟨_, _, rfl, rfl, ?_⟩
+  intro r hr
+  simp only [bcRows, retag, List.mem_map, List.mem_filter] at hr
+  obtain ⟨u, ⟨_, hu⟩, rfl⟩ := hr
+  refine ⟨?_, rfl, rfl⟩
+  cases hx : roomOf F.room u with
+  | none => rfl
+  | some k => simp [hx] at hu
+
+/-! non-vacuity: `u` stalls with one free slot; three broadcasts: the first is buffered, the next two stay
+    with blocked forwarders; `u` leaves (both forwarders stopped while blocked: the hub goes on), `w` joins and
+    is served; when `u` drains it gets the three in-flight messages and nothing is left -/
+example :
+    let u : Sub := ⟨"u", "stream/s"⟩
+    let w : Sub := ⟨"w", "stream/s"⟩
+    let ops : List FOp := [.core (.add "stream/s" ["v", "a"]), .core (.register u), .stall u 1,
+      .core (.broadcast "v" "cam"), .core (.broadcast "a" "cam"), .core (.broadcast "v" "cam"),
+      .core (.broadcast "v" "cam"), .core (.unregister u), .core (.register w)]
+    (∃ F, frun ops = .ok F ∧
+       F.items = [⟨u, .buffered, ⟨"v", 0⟩⟩, ⟨u, .zombie, ⟨"a", 1⟩⟩, ⟨u, .zombie, ⟨"v", 2⟩⟩] ∧
+       F.room = [(u, 0)] ∧ incoming F w "v" "cam" = 1 ∧ incoming F u "v" "cam" = 0 ∧
+       drainRows F.items u = [⟨u, ⟨"v", 0⟩, 1⟩, ⟨u, ⟨"a", 1⟩, 1⟩, ⟨u, ⟨"v", 2⟩, 1⟩]) ∧
+    (∃ F, frun (ops ++ [.unstall u, .core (.register u)]) = .ok F ∧ F.items = [] ∧ F.room = [] ∧
+       incoming F u "a" "cam" = 1) ∧
+    stalledNow ops u = true ∧ NoReRegister (coreOps ops) := by
+  refine ⟨⟨_, rfl, by decide⟩, ⟨_, rfl, by decide⟩, by decide, by decide⟩
 
 /-! ### the code before e26c2fb: the panic outcome is real -/
 
